@@ -106,8 +106,26 @@ func c02One(r *core.Run, ci int64, rng *rand.Rand, reps []int) {
 		}
 		q.Body = string(b)
 	}
+	// lengths on both sides of every varint width change (1|2 bytes at 128, 2|3 bytes at 16384)
+	edge := func() string {
+		n := []int{127, 128, 129, 16383, 16384, 16385}[rng.Intn(6)]
+		b := make([]byte, n)
+		for i := range b {
+			b[i] = byte('a' + (i*7)%26)
+		}
+		return string(b)
+	}
+	if rng.Intn(6) == 0 {
+		q.Body = edge()
+	}
+	if rng.Intn(12) == 0 {
+		q.QueryID = edge()
+	}
 	if neg >= ref.RevSettingsAsStr {
 		q.Settings = genChSettings(rng, "query")
+		if len(q.Settings) > 0 && rng.Intn(6) == 0 {
+			q.Settings[rng.Intn(len(q.Settings))].Value = edge()
+		}
 		// the same key on both levels (same or another value), and a key repeated within one level:
 		// the packet carries every entry, connection level first, in the caller's order
 		if len(opt.Settings) > 0 && rng.Intn(3) == 0 {
@@ -130,6 +148,9 @@ func c02One(r *core.Run, ci int64, rng *rand.Rand, reps []int) {
 		}
 	}
 	rows := []int{1, 2, 5, 40}[rng.Intn(4)]
+	if rng.Intn(12) == 0 {
+		rows = []int{127, 128, 16383, 16384, 16385}[rng.Intn(5)]
+	}
 	var ext, inp []c02Input
 	if rng.Intn(3) == 0 {
 		ext = genInputs(rng, 1+rng.Intn(2), []int{0, 1, 3}[rng.Intn(3)])
@@ -188,6 +209,14 @@ func c02One(r *core.Run, ci int64, rng *rand.Rand, reps []int) {
 	if !ok {
 		if sim.Srv.Err != nil {
 			fail("malformed-client-stream:"+errSite(sim.Srv.Err), fmt.Sprintf("server-side parse error at client byte %d: %v (and the call did not return)", sim.Srv.ErrAt, sim.Srv.Err))
+			return
+		}
+		// the client waits for the server although what it sent so far does not parse as complete
+		// packets: its byte stream is not the encoding of its inputs
+		var pend int
+		sim.Conn.Locked(func() { pend = len(sim.Srv.Pending()) })
+		if n, _ := sim.Conn.BlockedReaders(); n > 0 && pend > 0 {
+			fail("client-stream-incomplete", fmt.Sprintf("the client waits for a reply while the last %d bytes it sent do not form a complete packet at the negotiated revision", pend))
 			return
 		}
 		r.Inconclusive(fmt.Sprintf("case %d did not return within the watchdog", ci))
